@@ -583,7 +583,9 @@ class Ledger:
             r.bad.append('exception %r' % e)
         ok = not [x for x in r.bad if x.startswith(dep.split('/')[0][:3])]
         if dep.startswith('C04'):
-            ok = not [x for x in r.bad if x.startswith('C04.1')]
+            # non-emptiness at every node construction site: C04.1 itself and the shrinking site's collapse table (C04.5);
+            # an evaluation that broke off proves nothing
+            ok = not [x for x in r.bad if x.startswith('C04.1') or x.startswith('C04.5') or x.startswith('exception')]
         self._sub[k] = ok
         return ok
 
